@@ -1,7 +1,9 @@
 package main
 
 import (
+	"go/constant"
 	"go/token"
+	"go/types"
 	"sort"
 	"strings"
 
@@ -366,4 +368,430 @@ func vocabHasMethod(name string) bool {
 		}
 	}
 	return false
+}
+
+// ---- virtual returns: named results / single-exit style ---------------------------------------
+//
+// `ok, err = false, e; …; return ok, err` compiles to one Return whose results are phis. Rules reason
+// about "each way out of the function" (its value and the guards on its path), so such a Return is
+// presented as one virtual Return per incoming edge, carrying that edge's values; its position for
+// dominance / fact queries is the end of the predecessor block (plus the edge's own condition).
+
+type virtRet struct {
+	pred, succ *ssa.BasicBlock
+	real       *ssa.Return
+}
+
+var virtReturns = map[*ssa.Return]virtRet{}
+var virtCache = map[*ssa.Return][]*ssa.Return{}
+
+// locOf maps a virtual return to the instruction that stands for its position.
+func locOf(ins ssa.Instruction) ssa.Instruction {
+	if r, ok := ins.(*ssa.Return); ok {
+		if v, ok := virtReturns[r]; ok {
+			if v.succ == nil {
+				return v.real // stands exactly where the real return stands
+			}
+			return v.pred.Instrs[len(v.pred.Instrs)-1]
+		}
+	}
+	return ins
+}
+
+// splitReturn: virtual returns of r, or nil when r's results are not merged from several edges.
+func splitReturn(r *ssa.Return) []*ssa.Return {
+	if vs, ok := virtCache[r]; ok {
+		return vs
+	}
+	virtCache[r] = nil
+	b := r.Block()
+	if b == nil || len(b.Preds) < 2 {
+		return nil
+	}
+	hasPhi := false
+	for _, v := range r.Results {
+		if ph, ok := v.(*ssa.Phi); ok && ph.Block() == b {
+			hasPhi = true
+		}
+	}
+	if !hasPhi {
+		return nil
+	}
+	// the block only merges and returns (phis, debug refs, deferred-call epilogue are fine; other work is not)
+	for _, ins := range b.Instrs {
+		switch ins.(type) {
+		case *ssa.Phi, *ssa.DebugRef, *ssa.Return, *ssa.RunDefers:
+		default:
+			return nil
+		}
+	}
+	var out []*ssa.Return
+	var expand func(blk *ssa.BasicBlock, vals []ssa.Value, succ *ssa.BasicBlock, depth int)
+	expand = func(blk *ssa.BasicBlock, vals []ssa.Value, succ *ssa.BasicBlock, depth int) {
+		// blk -> succ edge with result values vals; if blk itself only merges (phis + jump) and a value is one of its phis, split further
+		onlyMerge := depth < 3 && len(blk.Preds) >= 2
+		if onlyMerge {
+			for _, ins := range blk.Instrs {
+				switch ins.(type) {
+				case *ssa.Phi, *ssa.DebugRef, *ssa.Jump:
+				default:
+					onlyMerge = false
+				}
+			}
+		}
+		usesPhi := false
+		if onlyMerge {
+			for _, v := range vals {
+				if ph, ok := v.(*ssa.Phi); ok && ph.Block() == blk {
+					usesPhi = true
+				}
+			}
+		}
+		if onlyMerge && usesPhi {
+			for i, p := range blk.Preds {
+				nv := make([]ssa.Value, len(vals))
+				for j, v := range vals {
+					if ph, ok := v.(*ssa.Phi); ok && ph.Block() == blk {
+						nv[j] = ph.Edges[i]
+					} else {
+						nv[j] = v
+					}
+				}
+				expand(p, nv, blk, depth+1)
+			}
+			return
+		}
+		vr := &ssa.Return{Results: vals}
+		virtReturns[vr] = virtRet{pred: blk, succ: succ, real: r}
+		out = append(out, vr)
+	}
+	for i, p := range b.Preds {
+		vals := make([]ssa.Value, len(r.Results))
+		for j, v := range r.Results {
+			if ph, ok := v.(*ssa.Phi); ok && ph.Block() == b {
+				vals[j] = ph.Edges[i]
+			} else {
+				vals[j] = v
+			}
+		}
+		expand(p, vals, b, 0)
+	}
+	virtCache[r] = out
+	return out
+}
+
+// retPos: source position of a (possibly virtual) return.
+func retPos(r *ssa.Return) token.Pos {
+	if v, ok := virtReturns[r]; ok {
+		return v.real.Pos()
+	}
+	return r.Pos()
+}
+
+// retParent: function of a (possibly virtual) return.
+func retParent(r *ssa.Return) *ssa.Function {
+	if v, ok := virtReturns[r]; ok {
+		return v.real.Parent()
+	}
+	return r.Parent()
+}
+
+// ---- values carried in local structs -----------------------------------------------------------
+//
+// A refactor that groups intermediate values in a small struct (returned by a helper, filled through
+// a pointer, or just a local) must not hide them: a load of field f of a local struct is the value
+// stored into that field, when that store is unique.
+
+// fieldSourceOf: the value stored into field `field` of the struct allocated by al, if unique.
+// Looks through a single whole-struct store (`*al = helper()` / `*al = *other`) and through new
+// helpers that receive al and fill the field through their parameter.
+// newStructType: is t (the struct a local holds) a type the rules do not know — introduced by a refactor?
+func newStructType(t types.Type) bool {
+	t = deref(t)
+	n, ok := t.(*types.Named)
+	if !ok {
+		_, isStruct := t.Underlying().(*types.Struct)
+		return isStruct // anonymous struct
+	}
+	if _, isStruct := n.Underlying().(*types.Struct); !isStruct {
+		return false
+	}
+	if n.Obj().Pkg() == nil || !strings.HasPrefix(n.Obj().Pkg().Path(), rootPath) {
+		return false
+	}
+	return !typeVocab[n.Obj().Pkg().Path()+"."+n.Obj().Name()]
+}
+
+func fieldSourceOf(al *ssa.Alloc, field int, depth int) ssa.Value {
+	if al == nil || depth > 4 || al.Referrers() == nil {
+		return nil
+	}
+	if !newStructType(al.Type()) {
+		return nil // structs of the confirmed tree keep their field names in renderings
+	}
+	var srcs []ssa.Value
+	var whole []ssa.Value
+	for _, ref := range *al.Referrers() {
+		switch x := ref.(type) {
+		case *ssa.FieldAddr:
+			if x.X != ssa.Value(al) || x.Field != field || x.Referrers() == nil {
+				continue
+			}
+			for _, r2 := range *x.Referrers() {
+				switch y := r2.(type) {
+				case *ssa.Store:
+					if y.Addr == ssa.Value(x) {
+						srcs = append(srcs, y.Val)
+					}
+				case ssa.CallInstruction:
+					// &s.f handed to a callee that may fill it: not a plain value any more
+					for _, a := range y.Common().Args {
+						if a == ssa.Value(x) {
+							if _, isB := y.Common().Value.(*ssa.Builtin); !isB {
+								srcs = append(srcs, nil)
+							}
+						}
+					}
+				}
+			}
+		case *ssa.Store:
+			if x.Addr == ssa.Value(al) {
+				whole = append(whole, x.Val)
+			}
+		case ssa.CallInstruction:
+			// the struct is handed (by address) to a helper that fills it
+			if h := helperCallee(ref); h != nil {
+				for j, a := range x.Common().Args {
+					if a == ssa.Value(al) && j < len(h.Params) {
+						srcs = append(srcs, paramFieldStores(h.Params[j], field, depth+1)...)
+					}
+				}
+			}
+		}
+	}
+	for _, s := range srcs {
+		if s == nil {
+			return nil
+		}
+	}
+	if len(srcs) == 1 && len(whole) == 0 {
+		return srcs[0]
+	}
+	if len(srcs) == 0 && len(whole) == 1 {
+		return fieldOfValue(whole[0], field, depth+1)
+	}
+	return nil
+}
+
+// paramFieldStores: values a helper stores into field `field` of the struct its parameter points to.
+func paramFieldStores(p *ssa.Parameter, field int, depth int) []ssa.Value {
+	var out []ssa.Value
+	if p.Referrers() == nil || depth > 4 {
+		return out
+	}
+	for _, ref := range *p.Referrers() {
+		switch x := ref.(type) {
+		case *ssa.FieldAddr:
+			if x.Field != field || x.Referrers() == nil {
+				continue
+			}
+			for _, r2 := range *x.Referrers() {
+				if st, ok := r2.(*ssa.Store); ok && st.Addr == ssa.Value(x) {
+					out = append(out, st.Val)
+				}
+			}
+		case *ssa.Store:
+			if x.Addr == ssa.Value(p) {
+				if v := fieldOfValue(x.Val, field, depth+1); v != nil {
+					out = append(out, v)
+				} else {
+					out = append(out, nil)
+				}
+			}
+		case ssa.CallInstruction:
+			if h := helperCallee(ref); h != nil {
+				for j, a := range x.Common().Args {
+					if a == ssa.Value(p) && j < len(h.Params) {
+						out = append(out, paramFieldStores(h.Params[j], field, depth+1)...)
+					}
+				}
+			}
+		}
+	}
+	return out
+}
+
+// fieldOfValue: field `field` of a struct *value* (result of a new helper, load of a local struct).
+func fieldOfValue(v ssa.Value, field int, depth int) ssa.Value {
+	if depth > 5 {
+		return nil
+	}
+	switch x := v.(type) {
+	case *ssa.UnOp:
+		if x.Op == token.MUL {
+			if al, ok := x.X.(*ssa.Alloc); ok {
+				return fieldSourceOf(al, field, depth+1)
+			}
+		}
+	case *ssa.Call, *ssa.Extract:
+		if in := helperValue(v); in != nil {
+			return fieldOfValue(in, field, depth+1)
+		}
+	case *ssa.Phi:
+		var one ssa.Value
+		for _, e := range x.Edges {
+			f := fieldOfValue(e, field, depth+1)
+			if f == nil || one != nil && f != one {
+				return nil
+			}
+			one = f
+		}
+		return one
+	}
+	return nil
+}
+
+// loadSource: for a load of a field of a local struct (or a field of a struct value), the value that was stored there.
+func loadSource(v ssa.Value) ssa.Value {
+	switch x := v.(type) {
+	case *ssa.UnOp:
+		if x.Op != token.MUL {
+			return nil
+		}
+		if fa, ok := x.X.(*ssa.FieldAddr); ok {
+			switch b := fa.X.(type) {
+			case *ssa.Alloc:
+				return fieldSourceOf(b, fa.Field, 0)
+			case *ssa.Call, *ssa.Extract:
+				// pointer to a struct built by a new helper (`st := newState(...)` returning *T)
+				if in := helperValue(b); in != nil {
+					if al, ok := in.(*ssa.Alloc); ok {
+						return fieldSourceOf(al, fa.Field, 0)
+					}
+				}
+			case *ssa.Parameter:
+				// helper receiving the caller's struct by address: what the caller stored there
+				if up := enteringArg(b); up != nil {
+					if al, ok := up.(*ssa.Alloc); ok {
+						return fieldSourceOf(al, fa.Field, 0)
+					}
+				}
+			}
+		}
+	case *ssa.Field:
+		return fieldOfValue(x.X, x.Field, 0)
+	}
+	return nil
+}
+
+// structTail: `res := helper(args); return res.a, res.b` — the results are fields of the struct a new
+// helper returned. Presented as the helper's own returns with the fields taken apart (zero value for
+// a field the helper's composite literal leaves out).
+func structTail(r *ssa.Return, depth int) []*ssa.Return {
+	if len(r.Results) == 0 || depth > 2 {
+		return nil
+	}
+	var call *ssa.Call
+	fields := make([]int, len(r.Results))
+	for j, v := range r.Results {
+		fields[j] = -1
+		if _, isC := v.(*ssa.Const); isC {
+			continue
+		}
+		var c *ssa.Call
+		var fld int
+		switch x := v.(type) {
+		case *ssa.Field:
+			cc, ok := x.X.(*ssa.Call)
+			if !ok {
+				return nil
+			}
+			c, fld = cc, x.Field
+		case *ssa.UnOp:
+			fa, ok := x.X.(*ssa.FieldAddr)
+			if !ok || x.Op != token.MUL {
+				return nil
+			}
+			al, ok := fa.X.(*ssa.Alloc)
+			if !ok || al.Referrers() == nil {
+				return nil
+			}
+			var whole []ssa.Value
+			for _, ref := range *al.Referrers() {
+				switch y := ref.(type) {
+				case *ssa.Store:
+					if y.Addr == ssa.Value(al) {
+						whole = append(whole, y.Val)
+					}
+				case *ssa.FieldAddr:
+					for _, r2 := range *y.Referrers() {
+						if st, ok := r2.(*ssa.Store); ok && st.Addr == ssa.Value(y) {
+							return nil
+						}
+					}
+				}
+			}
+			if len(whole) != 1 {
+				return nil
+			}
+			cc, ok := whole[0].(*ssa.Call)
+			if !ok {
+				return nil
+			}
+			c, fld = cc, fa.Field
+		default:
+			return nil
+		}
+		if call != nil && c != call {
+			return nil
+		}
+		call, fields[j] = c, fld
+	}
+	if call == nil {
+		return nil
+	}
+	h := helperCallee(call)
+	if h == nil || h.Signature.Results().Len() != 1 {
+		return nil
+	}
+	st, ok := deref(h.Signature.Results().At(0).Type()).Underlying().(*types.Struct)
+	if !ok {
+		return nil
+	}
+	var out []*ssa.Return
+	for _, hr := range returnsD(h, depth+1) {
+		if len(hr.Results) != 1 {
+			return nil
+		}
+		vals := make([]ssa.Value, len(r.Results))
+		for j, v := range r.Results {
+			if fields[j] < 0 {
+				vals[j] = v
+				continue
+			}
+			fv := fieldOfValue(hr.Results[0], fields[j], 0)
+			if fv == nil {
+				// field not set by the helper on this way out: zero value
+				fv = ssa.NewConst(nil, st.Field(fields[j]).Type())
+				if b, isB := st.Field(fields[j]).Type().Underlying().(*types.Basic); isB {
+					switch {
+					case b.Info()&types.IsBoolean != 0:
+						fv = ssa.NewConst(constant.MakeBool(false), st.Field(fields[j]).Type())
+					case b.Info()&types.IsInteger != 0:
+						fv = ssa.NewConst(constant.MakeInt64(0), st.Field(fields[j]).Type())
+					}
+				}
+			}
+			vals[j] = fv
+		}
+		vr := &ssa.Return{Results: vals}
+		if v, isV := virtReturns[hr]; isV {
+			virtReturns[vr] = v
+		} else {
+			// positioned at the helper's own return
+			virtReturns[vr] = virtRet{pred: hr.Block(), succ: nil, real: hr}
+		}
+		out = append(out, vr)
+	}
+	return out
 }
